@@ -1,6 +1,6 @@
 CONSTANTS Clients <- MCClients  Attackers <- MCAttackers  Realms = {"A", "B"}  Services <- MCServices  Wanted <- MCWanted
           Hop <- MCHop  Nonces = {1, 2, 3, 4}  KeyIds = {1, 2, 3, 4}  MaxHops = 1  MaxMsgs = 8
-          CheckNonce = FALSE  BoundReferrals = TRUE
+          CheckNonce = FALSE  BoundReferrals = TRUE  AuthRealmOwn = TRUE
 SPECIFICATION Spec
 INVARIANTS DeliveredIsRight TGTsAreOwn Secrecy HopsBounded
 CONSTRAINT HopConstraint
